@@ -8,7 +8,7 @@ import (
 // outside the language; it returns what was done, or "" if no suitable place was found.
 // The compiler must reject the result (the model returns Err on the same input).
 func Malform(r *vh.Rand, b *Bundle, pkg string) string {
-	msgs, _, files := sites(b, pkg)
+	msgs, _, files, _ := sites(b, pkg)
 	if len(files) == 0 {
 		return ""
 	}
